@@ -41,7 +41,7 @@ def build_registry(n, vec_cap, param_cap, slen, template, idmode, seed=0):
 
 def body_codec(n, vec_cap=1, param_cap=1, slen=1, template=None, idmode='full', seed=0, do=('ref_encode', 'roundtrip', 'ref_decode'), wrong=None):
     def body(M):
-        check_decls(M.decls)
+        check_decls(M.decls, M)
         rb, reg = build_registry(n, vec_cap, param_cap, slen, template, idmode, seed)
         for c in rb.cons: M.add(c)
         orig = snapshot(reg)
